@@ -51,8 +51,17 @@ struct ChildOut {
     status: String,
 }
 
+thread_local! {
+    /// The executable the current case runs (None: this binary with the synthetic registry).
+    static EXE: std::cell::RefCell<Option<String>> = const { std::cell::RefCell::new(None) };
+}
+
 fn run_child(line: &str, api: &str, nextest: bool, args: &[String]) -> ChildOut {
-    let exe = std::env::current_exe().expect("exe");
+    let real = EXE.with(|e| e.borrow().clone());
+    let exe = match &real {
+        Some(p) => std::path::PathBuf::from(p),
+        None => std::env::current_exe().expect("exe"),
+    };
     let mut cmd = Command::new(exe);
     cmd.args(args)
         .env("HX_CHILD", "1")
@@ -167,6 +176,7 @@ fn join_path(parent: &str, name: &str) -> String {
 /// K = P (has children), I (ignored), X (other leaf).  The leaves that are not
 /// ignored are paired, in print order, with the `C` events of the log.
 fn canon_tree(out: &ChildOut, pair_calls: bool) -> String {
+    let real = EXE.with(|e| e.borrow().is_some());
     let nodes = parse_tree(&out.stdout);
     let mut stack: Vec<String> = Vec::new();
     let calls: Vec<&String> = out.log.iter().filter(|e| e.starts_with('C')).collect();
@@ -194,7 +204,8 @@ fn canon_tree(out: &ChildOut, pair_calls: bool) -> String {
     items.sort();
     let mut s = items.join(";");
     if pair_calls {
-        if k != calls.len() || enters != calls.len() {
+        // (functions without a Bencher parameter have no "enter" event in real crates)
+        if k != calls.len() || (!real && enters != calls.len()) {
             s.push_str(&format!(";MISMATCH leaves={k} calls={} enters={enters}", calls.len()));
         }
         s.push_str(&format!("!{}", out.made));
@@ -208,7 +219,11 @@ fn canon_tree(out: &ChildOut, pair_calls: bool) -> String {
 }
 
 fn canon_terse(out: &ChildOut) -> String {
-    let lines: Vec<String> = out.stdout.lines().map(enc).collect();
+    let mut lines: Vec<String> = out.stdout.lines().map(enc).collect();
+    if EXE.with(|e| e.borrow().is_some()) {
+        // constructor order is not fixed
+        lines.sort();
+    }
     let mut s = format!("{}!{}", lines.join(";"), out.log.join(";"));
     if out.status != "ok" {
         s.push_str(&format!("!{}", out.status));
@@ -290,6 +305,7 @@ fn run_case(line: &str) -> String {
             }
         }
     }
+    EXE.with(|e| *e.borrow_mut() = sp.cfg.exe.clone());
     let mut out = Vec::new();
     let mut terse_lines: Option<Vec<String>> = None;
     for act in sp.cfg.acts.chars() {
@@ -311,6 +327,14 @@ fn run_case(line: &str) -> String {
                 false,
             ),
             'L' => canon_tree(&run_child(line, "main", false, &with(cli_args(&sp, None, false), &["--list"])), false),
+            'D' => {
+                let o = run_child(line, "dump", false, &[]);
+                let mut s = o.stdout.lines().next().unwrap_or("").to_string();
+                if o.status != "ok" {
+                    s.push_str(&format!("!{}", o.status));
+                }
+                s
+            }
             'A' => canon_tree(&run_child(line, "list_benches", false, &cli_args(&sp, None, false)), false),
             'E' => {
                 let lines = terse_lines.clone().unwrap_or_else(|| {
